@@ -1,4 +1,5 @@
 import Proofs.RefineDone
+import Proofs.StatusModel
 
 /-!
 # C14 — Timeouts cancel cooperatively and every job ends in a terminal status
@@ -275,6 +276,29 @@ end DH.Refine
 
 namespace DH.Timeout
 
+/-- **C14 (verified checker).**  The executable checker that the harness runs on the
+implementation's own status-write logs, start / return ticks and result table decides exactly the
+specification `LogSpec`: status only moves forward (non-empty prefix of `READY,RUNNING,DONE` or
+`READY,RUNNING,CANCELLING,CANCELLED`, or `READY[,RUNNING],CANCELLED`), nothing reported twice, only
+submitted jobs reported, (when the scenario is complete) every submitted job reported, reported
+statuses terminal, and for every gathered job away from a tie: started after the deadline ⇒
+CANCELLED via CANCELLING (CANCELLING read if the status is read again), running at the deadline ⇒
+the same and CANCELLING read, finished before the deadline / no timeout ⇒ DONE and never read
+CANCELLING; value kept. -/
+theorem C14_checker (o : Obs) : checkStatusLog o = true ↔ LogSpec o :=
+  checkStatusLog_iff o
+
+/-- **C14 (the model satisfies what the checker decides).**  The observation of the model after any
+history of returned `search()` calls and a further returned call satisfies `LogSpec`, hence passes
+`checkStatusLog` — the specification evaluated on the real logs is the one the model theorems are
+about. -/
+theorem C14_model_passes_checker (W : Nat) (specs : List Spec) (hist : List SCall)
+    (hh : ∀ st ∈ (runSearches (init W true specs) hist).2, SettledStop st)
+    (c : Call) (reps : List (List Nat)) (drainRep : List Nat)
+    (hs : SettledStop (search (runSearches (init W true specs) hist).1 c reps drainRep).2) :
+    checkStatusLog (obsOf (search (runSearches (init W true specs) hist).1 c reps drainRep).1 true) = true :=
+  (C14_checker _).mpr (model_logSpec W specs hist hh c reps drainRep hs)
+
 /-! ### non-vacuity: concrete schedules -/
 
 /-- 5 jobs on 2 workers, evaluator timeout 3: job 0 finishes before the deadline, job 1 is running at
@@ -313,5 +337,17 @@ example :
     r.2 = .budget ∧ r.1.jobs.map (fun j => (j.status, j.armed)) =
       [(.cancelled, some 2), (.done, none), (.done, none)] ∧ r.1.results = [0, 1, 2] := by
   decide +kernel
+
+/-- the checker on scenario A (all five jobs gathered) and on two corrupted observations: a job that
+started after the deadline reported DONE; a status sequence that goes CANCELLING → DONE -/
+example : checkStatusLog (obsOf (reach 2 false specsA opsA) true) = true := by decide +kernel
+def badLate : JobObs :=
+  { log := [.ready, .running, .done], start := 4, ret := 6, natEnd := 6, deadline := some 3, saw := false,
+    pollsAgain := true, tie := false, gathered := true, valueKept := true }
+def badOrder : JobObs :=
+  { log := [.ready, .running, .cancelling, .done], start := 0, ret := 1, natEnd := 1, deadline := none,
+    saw := false, pollsAgain := true, tie := false, gathered := false, valueKept := true }
+example : checkStatusLog { jobs := [badLate], results := [0], complete := true } = false := by decide +kernel
+example : checkStatusLog { jobs := [badOrder], results := [], complete := false } = false := by decide +kernel
 
 end DH.Timeout
